@@ -114,6 +114,68 @@ class ScopeLifeDriver:
         self.w.close()
 
 
+def gen_trace(rnd, nd=4, nc=3):
+    """one scope with 4 disposables (random ok / fail / suspend behaviours) and up to 3 spawned tasks, driven by random
+    environment moves chosen among those the REAL system currently offers (suspended enters / exits to release, a
+    body to end, tasks to end or fail, one cancellation), recorded until the block is left"""
+    beh = ["ok", "ok", "susp", "susp", "fail"]
+    cfg = [dict(en=rnd.choice(beh), ex=rnd.choice(beh)) for _ in range(nd)]
+    d = ScopeLifeDriver()
+    d.reset(dict(cfg=cfg, x=dict(ch=[0] * nc)))
+    tr = [dict(ev="Init", init=dict(cfg=cfg))]
+    cancelled = False
+    born = 0
+
+    def log(name, args):
+        o = d.apply(name, tuple(args))
+        tr.append(dict(ev=name, args=list(args), obs=dict(ph=o["ph"], out=o["out"], restored=o["restored"], body=list(o["body"]),
+                                                          d=[list(t) for t in o["d"]], ch=list(o["ch"]))))
+        return o
+
+    try:
+        o = log("Enter", [])
+        for _ in range(40):
+            ph = o["ph"]
+            if ph == "post" or ph == "pre":
+                break
+            ch = []
+            for i, dd in enumerate(d.disps, 1):
+                if dd.enter_status == "entering":
+                    ch += [("ReleaseEnter", [i, "ok"])] * 3 + [("ReleaseEnter", [i, "fail"])]
+                if dd.exit_status == "exiting":
+                    ch += [("ReleaseExit", [i, "ok"])] * 3 + [("ReleaseExit", [i, "fail"])]
+            if ph == "body":
+                ch += [("Leave", ["return"])] * 2 + [("Leave", ["E"]), ("Leave", ["BaseE"])]
+                if born < nc:
+                    ch += [("Spawn", [born + 1])] * 4
+            if ph in ("body", "waiting"):
+                for u in range(1, born + 1):
+                    if o["ch"][u - 1] == "run":
+                        ch += [("ChildEnd", [u])] * 2 + [("ChildFail", [u])]
+            if not cancelled and ph in ("entering", "body", "exiting", "waiting"):
+                ch += [("Cancel", [])]
+            if not ch:
+                break
+            name, args = rnd.choice(ch)
+            if name == "Spawn":
+                born += 1
+            if name == "Cancel":
+                cancelled = True
+            o = log(name, args)
+    finally:
+        d.close()
+    return tr
+
+
+TRACE_KW = dict(
+    variables=["cfg", "x", "obs"],
+    constants=dict(ND=4, NC=3, Behaviours='{"ok", "fail", "susp"}', Bug='"none"'),
+    config_vars=["cfg"],
+    actions=dict(Enter=0, ReleaseEnter=2, ReleaseExit=2, Leave=1, Spawn=1, ChildEnd=1, ChildFail=1, Cancel=0),
+    invariants=["Restored", "BodyExcIdentity", "EnterOnce", "ExitOnce", "ExitArg", "EnterFailureNoBody", "SurfaceCleanup",
+                "CancelNotLost", "CancelAbortsMembers", "NoWaitAfterFailure", "DisposableStateVisible"])
+
+
 def replay(rep, record):
     from harness.graph import parse_label
     d = ScopeLifeDriver()
